@@ -32,8 +32,12 @@ RULE = ("a case is a history of 3-30 hy.repr calls over values sharing objects: 
         "raise after k children / call hy.repr on children, models and temporaries / catch nested failures / "
         "print themselves. Grid part: for each generated spine of nested failing boxes every plan (k,d) is "
         "one history (fail, then probes of the objects on the failure path, a model, a container, heal the box, "
-        "print again). Random part: mixed histories. Non-trivial = a call that failed with the printer's "
-        "exception followed later by >=1 successful print of a model and >=1 of a builtin container; "
+        "print again). Recover part: a catching printer whose child printer raises, inside a model sequence with "
+        "model siblings after it and inside a self-referential container, at every depth 0..D; such a call is "
+        "also compared with the same call in which the failed nested calls are not made. "
+        "Random part: mixed histories. Non-trivial = a call that failed with the printer's exception (or made "
+        "a nested call that failed and was recovered) followed later by >=1 successful print of a model and "
+        ">=1 of a builtin container; "
         "distinct by rendered history.")
 FLOOR = {"quick": 1000, "thorough": 1000}
 BUDGET = {"quick": 22, "thorough": 420}
@@ -111,15 +115,55 @@ def _print_fail(x):
     return "(FailBox" + "".join(" " + t for t in out) + ")"
 
 
+# Log of the nested calls made by CatchBox printers during one top-level call: a tree of
+# {"caught": bool, "subs": [...]} in call order.  mode "record" fills it; mode "replay"
+# re-runs the same print but does NOT make the nested calls that were caught (the printer
+# emits its recovery text directly): the same call *without* the failed nested calls.
+_rec = {"mode": None, "cur": None}
+
+
 def _print_catch(x):
     import hy
     out = []
     for c in x.children:
+        mode, level = _rec["mode"], _rec["cur"]
+        ev = None
+        if mode == "record":
+            ev = {"caught": False, "subs": []}
+            level.append(ev)
+            _rec["cur"] = ev["subs"]
+        elif mode == "replay":
+            ev = level["events"][level["pos"]] if level["pos"] < len(level["events"]) else None
+            level["pos"] += 1
+            if ev is not None and ev["caught"]:
+                out.append("<caught>")
+                continue
+            _rec["cur"] = {"events": ev["subs"] if ev else [], "pos": 0}
         try:
-            out.append(hy.repr(c))
-        except PrinterError:
-            out.append("<caught>")
+            try:
+                out.append(hy.repr(c))
+            except PrinterError:
+                if mode == "record":
+                    ev["caught"] = True
+                out.append("<caught>")
+        finally:
+            _rec["cur"] = level
     return "(CatchBox" + "".join(" " + t for t in out) + ")"
+
+
+def with_log(mode, log, f):
+    """Run f() with the CatchBox printers recording into / replaying from `log`."""
+    saved = dict(_rec)
+    _rec["mode"] = mode
+    _rec["cur"] = log if mode == "record" else {"events": log, "pos": 0}
+    try:
+        return f()
+    finally:
+        _rec.update(saved)
+
+
+def any_caught(log):
+    return any(e["caught"] or any_caught(e["subs"]) for e in log)
 
 
 def _print_self(x):
@@ -178,6 +222,8 @@ def gate(tot, classes, extra, tier):
         return f"pristine-instance-filter-disagrees-with-brand-new-process-{c['filter_disagrees_with_fresh_process']}x"
     if not classes.get("plan:raised"):
         return "no-fault-plan-made-a-printer-raise"
+    if not c.get("twin_without_failed_nested_calls"):
+        return "no-recovered-nested-failure-was-observed"
     return None
 
 
@@ -393,13 +439,139 @@ def random_history(rng, tier):
     return {"ops": ops, "kind": "random"}
 
 
+RWRAPS = ["list", "tuple", "dict", "deque", "odict", "mList", "mExpression", "mTuple", "mDict",
+          "catchbox", "tempbox", "selfbox", "chainmap", "counter"]
+
+
+def recover_histories(rng, tier):
+    """A catching printer whose child's printer raises (a recovered nested failure),
+    (a) inside a model sequence with further model siblings after it, (b) inside a
+    self-referential container whose placeholder must still appear afterwards -- each at
+    every nesting depth 0..D, with the raise propagating through 0-2 containers up to
+    the catching printer."""
+    D = 5 if tier == "thorough" else 4
+    for depth in range(D):
+        for variant in ("model", "cycle"):
+            g = Gen28(rng, fail_p=0.0, max_depth=3, share_p=0.1)
+            pre = [{"op": "repr", "v": g.value()}] if rng.random() < 0.5 else []
+
+            def small():
+                return g.node(2, False, "imm")
+
+            def model():
+                return probe_model(g, rng)
+
+            made = {}
+
+            def thrower(levels):
+                if levels == 0:
+                    kids = [rng.choice((small, model))() for _ in range(rng.randint(0, 3))]
+                    bad = {"t": "failbox", "c": kids, "k": rng.randint(0, len(kids))}
+                    g.label(bad)
+                    made["bad"] = bad
+                    return bad
+                kind = rng.choice(["list", "tuple", "mList", "mExpression", "dict", "selfbox", "tempbox"])
+                return wrap(g, rng, lambda: thrower(levels - 1), kind)[0]     # the raise passes through
+
+            def catcher():
+                # (nodes are generated in build order: a node may share only what is built before it)
+                cbkids = [model() for _ in range(rng.randint(0, 1))]
+                cbkids.append(thrower(rng.randint(0, 2)))
+                if variant == "cycle":
+                    cbkids.append({"t": "ref", "up": rng.randint(2, 2 + depth)})
+                cbkids += [model() for _ in range(rng.randint(0, 2))]
+                cb = {"t": "catchbox", "c": cbkids}
+                g.label(cb)
+                made["cb"] = cb
+                return cb
+
+            def core():
+                if variant == "model":
+                    seq = [model() for _ in range(rng.randint(0, 2))]
+                    seq.append(catcher())
+                    seq += [model() for _ in range(rng.randint(1, 3))]
+                    seq.append({"t": "mseq", "kind": "Expression", "c": [model()]})
+                    kind = rng.choice(["List", "Expression", "Tuple", "Set", "Dict"])
+                    if kind == "Dict" and len(seq) % 2:
+                        seq.append(model())
+                    n = {"t": "mseq", "kind": kind, "c": seq}
+                else:
+                    seq = [small() for _ in range(rng.randint(0, 1))]
+                    seq.append(catcher())
+                    seq.append({"t": "ref", "up": rng.randint(1, 1 + depth)})
+                    seq += [rng.choice((small, model))() for _ in range(rng.randint(0, 2))]
+                    seq.append({"t": "ref", "up": 1})
+                    kind = rng.choice(["list", "dict", "deque", "odict"])
+                    if kind in ("list", "deque"):
+                        n = {"t": kind, "c": seq}
+                        if kind == "deque":
+                            n["maxlen"] = None
+                    else:
+                        n = {"t": kind, "c": [[G.leaf_ir(f"k{j}"), v] for j, v in enumerate(seq)]}
+                made["core"] = n
+                return n
+
+            def nest(d):
+                if d == 0:
+                    return core()
+                return wrap(g, rng, lambda: nest(d - 1), rng.choice(RWRAPS))[0]
+            top = nest(depth)
+            # references count *frames*: a chainmap wrapper adds two, so clamp by building
+            nframes = _frames_above(top, made["core"])
+            for x in G.walk(made["core"]):
+                if x["t"] == "ref":
+                    x["up"] = min(x["up"], nframes + _depth_in(made["core"], x))
+            ops = list(pre)
+            ops.append({"op": "repr", "v": top})
+            ops.append({"op": "repr", "v": model()})
+            ops.append({"op": "repr", "v": {"t": "share", "lbl": made["cb"]["lbl"]}})
+            ops.append({"op": "repr", "v": g.value(want=rng.choice(["list", "dict", "tuple"]))})
+            ops.append({"op": "setk", "lbl": made["bad"]["lbl"], "k": None})
+            ops.append({"op": "repr", "v": {"t": "share", "lbl": made["cb"]["lbl"]}})
+            ops.append({"op": "setk", "lbl": made["bad"]["lbl"], "k": 0})
+            ops.append({"op": "repr", "v": {"t": "mseq", "kind": "List",
+                                            "c": [model(), {"t": "share", "lbl": made["cb"]["lbl"]}, model()]}})
+            ops.append({"op": "repr", "v": model()})
+            yield {"ops": ops, "kind": "recover-" + variant, "depth": depth}
+
+
+def _frames_above(top, node):
+    """Number of containers enclosing `node` inside `top` (builder frames)."""
+    def rec(n, d):
+        if n is node:
+            return d
+        if "c" in n:
+            for k in G.kids(n):
+                r = rec(k, d + 1)
+                if r is not None:
+                    return r
+        return None
+    return rec(top, 0) or 0
+
+
+def _depth_in(core, ref):
+    """Number of frames from `core` (inclusive) down to the slot holding `ref`."""
+    def rec(n, d):
+        if n is ref:
+            return d
+        if "c" in n:
+            for k in G.kids(n):
+                r = rec(k, d + 1)
+                if r is not None:
+                    return r
+        return None
+    return rec(core, 0) or 1
+
+
 def cases(seed, tier, shard, nshards):
     i = 0
     while True:
         rng = rng_for(seed, ID, shard, i)
         i += 1
-        if i % 3:
+        if i % 4 in (1, 2):
             yield from grid_histories(rng, tier)
+        elif i % 4 == 3:
+            yield from recover_histories(rng, tier)
         else:
             for _ in range(8):
                 yield random_history(rng, tier)
@@ -454,6 +626,8 @@ def fresh_eval(arg):
     v = None
     for j in range(i + 1):
         v = h.prepare(j)
+    if arg.get("log") is not None:     # the same call without the nested calls that failed
+        return with_log("replay", arg["log"], lambda: outcome(st["hy"], v))
     return outcome(st["hy"], v)
 
 
@@ -470,7 +644,7 @@ class Pristine:
         self.proto = {k: getattr(HR, k) for k in ("__name__", "__file__", "__package__", "__spec__",
                                                   "__loader__") if hasattr(HR, k)}
 
-    def outcome(self, v):
+    def outcome(self, v, log=None):
         import types
         hy = self.st["hy"]
         m = types.ModuleType(self.proto["__name__"])
@@ -484,6 +658,8 @@ class Pristine:
         saved = hy.repr
         hy.repr = m.hy_repr
         try:
+            if log is not None:
+                return with_log("replay", log, lambda: outcome(hy, v))
             return outcome(hy, v)
         finally:
             hy.repr = saved
@@ -560,8 +736,14 @@ def run_case(case):
             continue
         exp = ref.outcome(v)                 # filter (touches no state of the module under test)
         n0 = mon.count
-        got = outcome(hy, v, mon)            # the call of the history
+        log = []
+        got = with_log("record", log, lambda: outcome(hy, v, mon))     # the call of the history
         sec = secondary(st)
+        recovered = any_caught(log)
+        if recovered:
+            classes.append("nested-failure-recovered")
+            if failed_at is None:
+                failed_at = i
         kind = op_kind(op["v"], defs)
         classes.append("op:" + kind)
         classes.append("outcome:" + (got[0] if got[0] == "ok" else got[1]))
@@ -573,6 +755,28 @@ def run_case(case):
         elif got[0] == "ok" and failed_at is not None:
             model_after |= kind == "model"
             cont_after |= kind == "container"
+        if recovered and why is None:
+            # The call made nested calls (from inside a printer) that failed and were
+            # recovered from.  Its text must not depend on them: the same call with those
+            # nested calls not made (the printer emits its recovery text directly) has to
+            # give the same text.  Filter: pristine instance; verdict: brand-new processes.
+            st["counts"]["twin_without_failed_nested_calls"] += 1
+            twin = ref.outcome(v, log)
+            if twin != got and (twin[0] == "ok" or got[0] == "ok"):
+                f_orig = G.fresh_process("checks.c28", {"ops": ops, "i": i})
+                f_twin = G.fresh_process("checks.c28", {"ops": ops, "i": i, "log": log})
+                st["counts"]["fresh_process_confirmations"] += 2
+                for f in (f_orig, f_twin):
+                    if isinstance(f, dict):
+                        raise RuntimeError("fresh process: " + str(f))
+                if f_orig != f_twin and (f_orig[0] == "ok" or f_twin[0] == "ok"):
+                    show = lambda o: repr(o[1][:300]) if o[0] == "ok" else "raises " + o[1]
+                    why = (f"call {i}: a nested hy.repr call made from inside a printer failed and the printer "
+                           f"recovered; the enclosing call then gives {show(f_orig)} in a fresh interpreter, but "
+                           f"{show(f_twin)} when the failed nested call is not made at all: state of the call in "
+                           f"progress was disturbed by the failed nested call")
+                    break
+                st["counts"]["filter_disagrees_with_fresh_process"] += 1
         if got == exp and i not in sample:
             continue
         # verdict: a brand-new interpreter process makes this one call
@@ -607,6 +811,8 @@ def run_case(case):
         # the ids are not reused by later cases and the violation is reported by the history
         # that caused it.  (Never happens on a tree that cleans up.)
         st["graveyard"].append(h)
+    if case.get("kind", "").startswith("recover"):
+        classes.append(f"recover:d{case.get('depth')}")
     if case.get("kind") == "grid":
         classes.append("plan:raised" if failed_at is not None else "plan:not-raised")
         classes.append(f"plan:d{case['plan'][1]}")
